@@ -1,10 +1,10 @@
 CONSTANTS
   ZoneKinds <- MCZoneKinds
   QKinds <- MCQKinds
-  Tampers <- MCTamperPairs
+  Tampers <- MCTampers
   Flags <- MCFlags
   Anchors = {TRUE, FALSE}
-  Fallbacks = {"none"}
+  Fallbacks = {"honest", "lying"}
   FailoverRule = "statement"
 INIT Init
 NEXT Next
